@@ -73,6 +73,9 @@ func leaves(v reflect.Value, prefix string, out *[]leaf) {
 	t := v.Type()
 	for i := 0; i < t.NumField(); i++ {
 		f := v.Field(i)
+		if t.Field(i).PkgPath != "" {
+			continue // unexported: not an option
+		}
 		p := t.Field(i).Name
 		if prefix != "" {
 			p = prefix + "." + p
@@ -511,6 +514,17 @@ func c17Derived(rng *rand.Rand, i int) (string, string) {
 		if !reflect.DeepEqual(*got, want) {
 			return fmt.Sprintf("GetCouchbaseMetadata with overrides %v on %+v: got %+v want %+v", c.Metadata.Config, *c, *got, want), ""
 		}
+		// the configuration is edited (another bucket for the same template, one more override) and asked again
+		c.BucketName = randWord(rng)
+		if _, ov := c.Metadata.Config["bucket"]; !ov {
+			want.Bucket = c.BucketName
+		}
+		want.Scope = randWord(rng)
+		c.Metadata.Config["scope"] = want.Scope
+		got = c.GetCouchbaseMetadata()
+		if !reflect.DeepEqual(*got, want) {
+			return fmt.Sprintf("GetCouchbaseMetadata after the configuration was edited (bucketName %q, override scope=%q): got %+v want %+v", c.BucketName, want.Scope, *got, want), ""
+		}
 		if len(keys) > 0 {
 			return "", "md:" + strings.Join(keys, ",")
 		}
@@ -631,6 +645,7 @@ metadata:
   config:
     scope: "%s"
     collection: "%s"
+    password: "pw-0verride-7"
 leaderElection:
   type: "%s"
 api:
@@ -651,8 +666,13 @@ logging:
 		c := d.GetConfig()
 		got := map[string]string{"scopeName": c.ScopeName, "mdColl": c.Metadata.Config["collection"], "rootCAPath": c.RootCAPath, "metricPath": c.Metric.Path,
 			"group": c.Dcp.Group.Name, "mdScope": c.Metadata.Config["scope"], "leType": c.LeaderElection.Type}
+		mdPw, derivedPw := c.Metadata.Config["password"], c.GetCouchbaseMetadata().Password
 		d.GetClient().DcpClose()
 		d.GetClient().Close()
+		if mdPw != "pw-0verride-7" || derivedPw != "pw-0verride-7" {
+			return drv.Result{Verdict: drv.Violated, Clause: "explicit-altered", FindingKey: "C17/explicit-altered",
+				Detail: fmt.Sprintf("metadata.config.password was set to %q in the file; after NewDcp(path) the configuration holds %q and GetCouchbaseMetadata().Password is %q", "pw-0verride-7", mdPw, derivedPw)}, nil, nil
+		}
 		for name, fl := range f {
 			exp := fl.exp
 			if exp == "" && (name == "metricPath" || name == "leType" || name == "scopeName") {
